@@ -212,6 +212,13 @@ Theorem C15_literal_checker_accepts_model : forall off ws ps l,
 Proof. exact model_literal_accepted. Qed.
 Print Assumptions C15_literal_checker_accepts_model.
 
+(** ... and decides the Prop-level property [lit_obs_ok] (Spec/TailBitmapObs.v) of an observed history. *)
+Theorem C15_literal_checker_decides_property : forall off ws ps obs, off mod 64 = 0 -> words_ok ws ->
+  Forall (fun ob => words_ok (snd (fst ob))) obs ->
+  (check_literal off ws ps obs = true <-> lit_obs_ok off ws ps obs).
+Proof. exact check_literal_iff. Qed.
+Print Assumptions C15_literal_checker_decides_property.
+
 (** WIDENED (2): the exported Words read with the plain bitmap functions (Model/BitmapOf.v).
     In ANY state, for any j >= Offset, bitmap.Get / Get1 on Words at j - Offset are the same reads as
     TailBitmap.Get / Get1 at j (they panic together past the end); SafeGet / SafeGet1 agree below the
